@@ -85,7 +85,12 @@ def run(ctx):
         jobs = []
         for i in range(n):
             a = gen_archive(rnd)
+            # a hostile method field that happens to spell a real compression method makes 'p' print whatever the
+            # printable member data DEcompresses to: that is member data, not header text -- no p modes for such archives
+            decodes = any(m in a for m in (b"-lh1-", b"-lh4-", b"-lh5-", b"-lh6-", b"-lh7-", b"-lhx-", b"-lzs-", b"-lz5-", b"-pm1-", b"-pm2-"))
             for mode in (rnd.sample(MODES, 5) if ctx.quick else MODES):
+                if decodes and mode.startswith("p"):
+                    continue
                 jobs.append((len(jobs), a, mode))
 
         def one(job):
